@@ -11,12 +11,17 @@ histories are the canonical ones: `run_canon`, `run_get` in `Props/C12.lean`). T
 quantify over EVERY proof set and exclusion leaf (not only generated ones) and need collision freedom of
 the hash (`CollisionFree`). The byte-level verifiers of `sparse/proof.rs` (`Model/SparseStore.lean`) are
 shown to compute exactly these structural verifiers for 32-byte keys (`verifyInclusion_bytes`,
-`verifyExclusion_bytes`); `generate_proof` of the storage-level model is tied by the stream `c14`.
+`verifyExclusion_bytes`); `generate_proof` of the storage-level model is PROVED to return the structural proof on
+every storage state reachable by a history of the transcribed `insert` / `delete`
+(`store_generateProof_refines`), and all clauses are restated on the transcribed functions alone
+(`store_history_proofs`). The stream `c14` ties the transcription to the Rust code.
 -/
 import FuelVerif.Lemmas.SparseProof
 import FuelVerif.Props.C12
 import FuelVerif.Lemmas.SparseBytes
 import FuelVerif.Lemmas.SparseRefine
+import FuelVerif.Lemmas.SparseBytes32
+import FuelVerif.Props.C12Store
 namespace FuelVerif.Smt
 open Tree
 
@@ -216,5 +221,116 @@ theorem generateProof_refines {σ : Type} (S : FuelVerif.SmtStore.StoreOps σ) (
     FuelVerif.SmtStore.generateProof H S s k.val =
       .ok (proofToBytes (generateProof bit32 (hashes32 H hok.len) k t)) :=
   generateProof_rep H hok S hr k
+
+/-! ### C14 on the transcribed Rust algorithms, for every reachable storage state -/
+
+open FuelVerif.SmtBytes FuelVerif.SmtRefine FuelVerif.Gen.Sparse in
+/-- **`generate_proof` of the transcription on every reachable storage state**: after ANY history run by the
+transcribed `MerkleTree::insert` / `delete` from `MerkleTree::new` over any storage, the transcribed
+`generate_proof` (`path_set` over the node store) succeeds and returns exactly the structural proof of the
+structural tree of the same history, and `root()` is that tree's root — so all five clauses of
+`history_proofs_bytes` speak about the transcribed algorithm. -/
+theorem store_generateProof_refines {σ : Type} (S : FuelVerif.SmtStore.StoreOps σ) (H : Bytes → Bytes)
+    (hok : HashOK H) (laws : FuelVerif.SmtStore.StoreLaws S) (st0 : σ) (ops : List (Op Key32 Bytes))
+    (k : Key32) :
+    FuelVerif.SmtStore.generateProof H S (storeRun H S st0 ops) k.val =
+        .ok (proofToBytes (generateProof bit32 (hashes32 H hok.len) k
+          (run bit32 maxProofLen (ops.map (hashOp H hok.len))))) ∧
+      (storeRun H S st0 ops).rootHash =
+        ((run bit32 maxProofLen (ops.map (hashOp H hok.len))).hash (hashes32 H hok.len)).val := by
+  have hr := (store_history_rep H S hok laws st0 ops).2
+  rw [maxProofLen_eq_width]
+  exact ⟨generateProof_rep H hok S hr k, rep_rootHash H S hok hr⟩
+
+/-- well-typed exclusion leaf: key and value hash are 32 bytes (the Rust type `ExclusionLeafData`) -/
+def LeafOK : FuelVerif.SmtStore.ExclusionLeaf → Prop
+  | .leaf k v => k.length = FuelVerif.Gen.Sparse.keyBytes ∧ v.length = FuelVerif.Gen.Sparse.keyBytes
+  | .placeholder => True
+
+open FuelVerif.SmtBytes FuelVerif.SmtRefine FuelVerif.Gen.Sparse in
+/-- **C14, all clauses, on the transcribed Rust algorithms.** After any history run by the transcribed
+`insert` / `delete`, for any 32-byte key: `generate_proof` succeeds; the proof is an inclusion proof exactly
+when the key is in the final map; for a present key the transcribed `InclusionProof::verify` accepts the
+generated proof against `root()` with the stored data, for an absent key the transcribed
+`ExclusionProof::verify` accepts the generated proof; and for EVERY well-typed proof set (entries of 32 bytes —
+generated, altered or forged) acceptance by `InclusionProof::verify` with data `d` implies the final map holds
+`sum(d)` at the key, acceptance by `ExclusionProof::verify` (any well-typed exclusion leaf) implies the key is
+absent. Hypotheses: `HashOK H`, `StoreLaws S`. -/
+theorem store_history_proofs {σ : Type} (S : FuelVerif.SmtStore.StoreOps σ) (H : Bytes → Bytes)
+    (hok : HashOK H) (laws : FuelVerif.SmtStore.StoreLaws S) (st0 : σ) (ops : List (Op Key32 Bytes))
+    (k : Key32) :
+    let s := storeRun H S st0 ops
+    let m := finalMap (ops.map (hashOp H hok.len))
+    ∃ pf, FuelVerif.SmtStore.generateProof H S s k.val = .ok pf ∧
+      ((∃ ps, pf = .inclusion ps) ↔ (m k).isSome = true) ∧
+      (∀ d, m k = some ⟨H d, hok.len d⟩ →
+        ∃ ps, pf = .inclusion ps ∧ FuelVerif.SmtStore.verifyInclusion H ps s.rootHash k.val d = .ok true) ∧
+      (m k = none →
+        ∃ ps leaf, pf = .exclusion ps leaf ∧
+          FuelVerif.SmtStore.verifyExclusion H ps leaf s.rootHash k.val = .ok true) ∧
+      (∀ ps d, (∀ x ∈ ps, x.length = keyBytes) →
+        FuelVerif.SmtStore.verifyInclusion H ps s.rootHash k.val d = .ok true →
+        m k = some ⟨H d, hok.len d⟩) ∧
+      (∀ ps leaf, (∀ x ∈ ps, x.length = keyBytes) → LeafOK leaf →
+        FuelVerif.SmtStore.verifyExclusion H ps leaf s.rootHash k.val = .ok true → m k = none) := by
+  intro s m
+  obtain ⟨hgp, hroot⟩ := store_generateProof_refines S H hok laws st0 ops k
+  obtain ⟨c1, c2, c3, c4, c5⟩ := history_proofs_bytes H hok (ops.map (hashOp H hok.len)) k
+  generalize run bit32 maxProofLen (ops.map (hashOp H hok.len)) = t at hgp hroot c1 c2 c3 c4 c5
+  refine ⟨_, hgp, ?_, ?_, ?_, ?_, ?_⟩
+  · rw [← c1]
+    cases hsp : generateProof bit32 (hashes32 H hok.len) k t with
+    | inclusion sp => simp [proofToBytes, Proof.isInclusion]
+    | exclusion sp leaf => cases leaf <;> simp [proofToBytes, Proof.isInclusion]
+  · intro d hd
+    obtain ⟨sp, h1, h2⟩ := c2 _ hd
+    refine ⟨sp.map Subtype.val, by rw [h1]; rfl, ?_⟩
+    rw [verifyInclusion_bytes H _ _ _ _ k.property, hroot]
+    have := verifyInclusion32_eq H hok.len maxProofLen (t.hash (hashes32 H hok.len)) k ⟨H d, hok.len d⟩ sp
+    simp only at this
+    rw [this, h2]
+  · intro hn
+    obtain ⟨sp, leaf, h1, h2⟩ := c3 hn
+    cases leaf with
+    | leaf k' v' =>
+      refine ⟨sp.map Subtype.val, .leaf k'.val v'.val, by rw [h1]; rfl, ?_⟩
+      rw [verifyExclusion_bytes H _ _ _ _ k.property, hroot]
+      have := verifyExclusion32_eq H hok.len maxProofLen (t.hash (hashes32 H hok.len)) k sp (.leaf k' v')
+      simp only [exLeafB] at this
+      simp only
+      rw [this, h2]
+    | placeholder =>
+      refine ⟨sp.map Subtype.val, .placeholder, by rw [h1]; rfl, ?_⟩
+      rw [verifyExclusion_bytes H _ _ _ _ k.property, hroot]
+      have := verifyExclusion32_eq H hok.len maxProofLen (t.hash (hashes32 H hok.len)) k sp .placeholder
+      simp only [exLeafB] at this
+      simp only
+      rw [this, h2]
+  · intro ps d hps hacc
+    obtain ⟨ps', e⟩ := lift32 ps hps
+    subst e
+    rw [verifyInclusion_bytes H _ _ _ _ k.property, hroot] at hacc
+    have := verifyInclusion32_eq H hok.len maxProofLen (t.hash (hashes32 H hok.len)) k ⟨H d, hok.len d⟩ ps'
+    simp only at this
+    rw [this] at hacc
+    exact c4 _ ps' (by injection hacc)
+  · intro ps leaf hps hleaf hacc
+    obtain ⟨ps', e⟩ := lift32 ps hps
+    subst e
+    rw [verifyExclusion_bytes H _ _ _ _ k.property, hroot] at hacc
+    cases leaf with
+    | leaf k' v' =>
+      have := verifyExclusion32_eq H hok.len maxProofLen (t.hash (hashes32 H hok.len)) k ps'
+        (.leaf ⟨k', hleaf.1⟩ ⟨v', hleaf.2⟩)
+      simp only [exLeafB] at this
+      simp only at hacc
+      rw [this] at hacc
+      exact c5 ps' _ (by injection hacc)
+    | placeholder =>
+      have := verifyExclusion32_eq H hok.len maxProofLen (t.hash (hashes32 H hok.len)) k ps' .placeholder
+      simp only [exLeafB] at this
+      simp only at hacc
+      rw [this] at hacc
+      exact c5 ps' _ (by injection hacc)
 
 end FuelVerif.Smt
